@@ -30,6 +30,15 @@ Definition guards_ok : bool :=
 
 Definition preload_ok : bool := LF.preload_system_only.
 
+(* RawLexiconEntry::should_index is `left_id >= 0` *)
+Definition index_rule_ok : bool := String.eqb LF.should_index_cmp ">=" && Z.eqb LF.should_index_rhs 0.
+
+Lemma builder_indexes_spec : index_rule_ok = true -> forall r : row, builder_indexes (snd r) = indexed r.
+Proof.
+  unfold index_rule_ok. rewrite andb_true_iff, String.eqb_eq, Z.eqb_eq. intros [E1 E2] r.
+  unfold builder_indexes, indexed. rewrite E1, E2. reflexivity.
+Qed.
+
 (* ---------- word ids ---------- *)
 Section Layout.
 Hypothesis H : layout_ok = true.
@@ -472,3 +481,148 @@ Proof.
     cbn [s_pos_list flat_map fst snd]. rewrite app_assoc. reflexivity.
 Qed.
 End Pos.
+
+(* ====================================================================================================
+   The per-dictionary certificate: cert_lex = true makes Lexicon::lookup equal to the naive scan of the CSV,
+   for every byte text and every offset
+   ==================================================================================================== *)
+Lemma list_eqb_N_eq : forall l1 l2 : list N, list_eqb N.eqb l1 l2 = true <-> l1 = l2.
+Proof.
+  induction l1 as [|x t IH]; intros [|y u]; cbn; split; intros H; try reflexivity; try discriminate.
+  - apply andb_true_iff in H. destruct H as [H1 H2]. apply N.eqb_eq in H1. apply IH in H2. subst. reflexivity.
+  - injection H as -> ->. apply andb_true_iff. split; [apply N.eqb_refl|apply IH; reflexivity].
+Qed.
+
+Lemma prefix_b_spec : forall k rest, prefix_b k rest = true <-> is_prefix k rest.
+Proof.
+  induction k as [|x k IH]; intros rest; cbn [prefix_b].
+  - split; [intros _; exists rest; reflexivity|reflexivity].
+  - destruct rest as [|y r].
+    + split; [discriminate|intros [s Hs]; discriminate].
+    + rewrite andb_true_iff, N.eqb_eq, IH. split.
+      * intros [-> [s ->]]. exists s. reflexivity.
+      * intros [s Hs]. cbn in Hs. injection Hs as -> ->. split; [reflexivity|exists s; reflexivity].
+Qed.
+
+Lemma rows_with_in k rows i :
+  In i (rows_with k rows) <-> exists r, nth_error rows (N.to_nat i) = Some r /\ indexed r = true /\ fst r = k.
+Proof.
+  unfold rows_with. rewrite in_flat_map. split.
+  - intros [[j r] [Hin Hi]]. cbn [fst snd] in Hi. apply (proj1 (number_in _ _ _ _)) in Hin.
+    destruct Hin as [n [-> Hn]].
+    destruct (indexed r && bytes_eqb (fst r) k) eqn:E; [|contradiction].
+    destruct Hi as [<-|[]]. apply andb_true_iff in E. destruct E as [E1 E2]. apply list_eqb_N_eq in E2.
+    exists r. replace (N.to_nat (0 + N.of_nat n)) with n by lia. repeat split; assumption.
+  - intros [r [Hn [Hi <-]]]. exists (i, r). split.
+    + apply (proj2 (number_in _ _ _ _)). exists (N.to_nat i). split; [lia|exact Hn].
+    + cbn [fst snd]. rewrite Hi. replace (bytes_eqb (fst r) (fst r)) with true
+        by (symmetry; apply list_eqb_N_eq; reflexivity). left. reflexivity.
+Qed.
+
+Lemma naive_lex_in dic rows text off w e :
+  In (w, e) (naive_lex dic rows text off) <->
+  exists i r, nth_error rows (N.to_nat i) = Some r /\ indexed r = true /\ is_prefix (fst r) (skipn off text)
+              /\ w = stamp dic i /\ e = N.of_nat (off + length (fst r)).
+Proof.
+  unfold naive_lex. rewrite in_flat_map. split.
+  - intros [[j r] [Hin Hi]]. cbn [fst snd] in Hi. apply (proj1 (number_in _ _ _ _)) in Hin.
+    destruct Hin as [n [-> Hn]].
+    destruct (indexed r && prefix_b (fst r) (skipn off text)) eqn:E; [|contradiction].
+    destruct Hi as [Heq|[]]. injection Heq as <- <-. apply andb_true_iff in E. destruct E as [E1 E2].
+    apply prefix_b_spec in E2. exists (0 + N.of_nat n), r.
+    replace (N.to_nat (0 + N.of_nat n)) with n by lia. repeat split; assumption.
+  - intros [i [r [Hn [Hi [Hp [-> ->]]]]]]. exists (i, r). split.
+    + apply (proj2 (number_in _ _ _ _)). exists (N.to_nat i). split; [lia|exact Hn].
+    + cbn [fst snd]. rewrite Hi. apply prefix_b_spec in Hp. rewrite Hp. left. reflexivity.
+Qed.
+
+Lemma stamp_all_total dic e : N.land dic LF.DIC_MASK = dic -> forall ids,
+  Forall (fun r => N.land r WORD_MASK = r) ids -> exists l, stamp_all dic ids e = Some l.
+Proof.
+  intros Hd. induction ids as [|r t IH]; intros Hf; [eexists; reflexivity|].
+  inversion Hf as [|r' t' Hr Ht]; subst. destruct (IH Ht) as [l Hl]. cbn [stamp_all]. unfold stamp_dbg.
+  rewrite Hd, Hr, !N.eqb_refl. cbn [andb]. rewrite Hl. eexists. reflexivity.
+Qed.
+
+Lemma expand_total tbl dic : N.land dic LF.DIC_MASK = dic -> forall es,
+  (forall v e, In (v, e) es -> exists ids, entries tbl v = Some ids /\ Forall (fun r => N.land r WORD_MASK = r) ids) ->
+  exists l, expand tbl dic es = Some l.
+Proof.
+  intros Hd. induction es as [|[v e] t IH]; intros H; [eexists; reflexivity|].
+  destruct (H v e (or_introl eq_refl)) as [ids [He Hf]].
+  destruct (stamp_all_total dic e Hd ids Hf) as [x Hx].
+  destruct (IH (fun v' e' Hin => H v' e' (or_intror Hin))) as [y Hy].
+  cbn [expand]. rewrite He, Hx, Hy. eexists. reflexivity.
+Qed.
+
+Lemma accept_value_nonempty a key v : accept_value a key = Some v -> key <> [].
+Proof. intros H ->. unfold accept_value, accept_from, value_at in H. cbn in H. discriminate. Qed.
+
+Section Cert.
+Variables (L : lexicon) (rows : list row) (fuel : nat).
+Hypothesis Hcert : cert_lex L rows fuel = true.
+
+Lemma cert_parts : exists ks, keys_of (lx_trie L) fuel = Some ks /\
+  (forall k v, In (k, v) ks -> rows_with k rows <> [] /\ entries (lx_table L) v = Some (rows_with k rows)
+                               /\ Forall (fun r => N.land r WORD_MASK = r) (rows_with k rows)) /\
+  (forall r, In r rows -> indexed r = true -> exists v, In (fst r, v) ks).
+Proof.
+  unfold cert_lex in Hcert. destruct (keys_of (lx_trie L) fuel) as [ks|]; [|discriminate].
+  apply andb_true_iff in Hcert. destruct Hcert as [H1 H2]. exists ks. split; [reflexivity|]. split.
+  - intros k v Hin. rewrite forallb_forall in H1. specialize (H1 (k, v) Hin). cbn [fst snd] in H1.
+    destruct (rows_with k rows) as [|i0 t] eqn:E; [discriminate|].
+    apply andb_true_iff in H1. destruct H1 as [Ha Hb]. split; [discriminate|]. split.
+    + destruct (entries (lx_table L) v) as [ids|]; cbn in Ha; [|discriminate].
+      apply list_eqb_N_eq in Ha. subst. reflexivity.
+    + rewrite forallb_forall in Hb. apply Forall_forall. intros r Hr. apply N.eqb_eq. apply Hb. exact Hr.
+  - intros r Hin Hi. rewrite forallb_forall in H2. specialize (H2 r Hin). rewrite Hi in H2. cbn [negb orb] in H2.
+    apply existsb_exists in H2. destruct H2 as [[k v] [Hk He]]. cbn [fst] in He. apply list_eqb_N_eq in He. subst k.
+    exists v. exact Hk.
+Qed.
+
+(* certified dictionary: for EVERY byte text and offset, Lexicon::lookup succeeds and returns exactly the rows of the CSV
+   that are indexed and whose surface is a prefix of the text at that offset, with the right end and word number *)
+Lemma lex_lookup_exact_of_cert : forall dic text off,
+  N.land dic LF.DIC_MASK = dic -> bytes text ->
+  exists l, lex_lookup L dic text off = Some l /\
+            forall w e, In (w, e) l <-> In (w, e) (naive_lex dic rows text off).
+Proof.
+  intros dic text off Hd Hb. destruct cert_parts as [ks [Hk [Hks Hrows]]].
+  assert (Hbs : forall key, is_prefix key (skipn off text) -> bytes key).
+  { intros key [suffix Hs]. assert (Hb2 : bytes (skipn off text)).
+    { unfold bytes in *. rewrite Forall_forall in *. intros x Hx. apply Hb.
+      rewrite <- (firstn_skipn off text). apply in_or_app. right. exact Hx. }
+    rewrite Hs in Hb2. unfold bytes in Hb2. apply Forall_app in Hb2. exact (proj1 Hb2). }
+  assert (Htot : exists l, lex_lookup L dic text off = Some l).
+  { unfold lex_lookup. apply expand_total; [exact Hd|]. intros v e Hin.
+    apply traverse_in in Hin. destruct Hin as [key [Hne [Ha [Hp _]]]].
+    assert (Hin : In (key, v) ks) by (apply (check_trie_sound _ _ _ Hk); split; [exact (Hbs key Hp)|exact Ha]).
+    destruct (Hks key v Hin) as [_ [He Hf]]. exists (rows_with key rows). split; assumption. }
+  destruct Htot as [l Hl]. exists l. split; [exact Hl|]. intros w e.
+  rewrite (lex_lookup_in L dic text off l Hl w e), naive_lex_in. split.
+  - intros [key [v [ids [r [Hne [Ha [Hp [-> [He [Hr ->]]]]]]]]]].
+    assert (Hin : In (key, v) ks) by (apply (check_trie_sound _ _ _ Hk); split; [exact (Hbs key Hp)|exact Ha]).
+    destruct (Hks key v Hin) as [_ [He' _]]. rewrite He' in He. injection He as <-.
+    apply rows_with_in in Hr. destruct Hr as [rw [Hn [Hi Hf]]]. exists r, rw. subst key. repeat split; assumption.
+  - intros [i [rw [Hn [Hi [Hp [-> ->]]]]]].
+    destruct (Hrows rw (nth_error_In _ _ Hn) Hi) as [v Hin].
+    destruct (Hks (fst rw) v Hin) as [_ [He _]].
+    apply (check_trie_sound _ _ _ Hk) in Hin. destruct Hin as [_ Ha].
+    exists (fst rw), v, (rows_with (fst rw) rows), i.
+    split; [exact (accept_value_nonempty _ _ _ Ha)|]. split; [exact Ha|]. split; [exact Hp|]. split; [reflexivity|].
+    split; [exact He|]. split; [|reflexivity]. apply rows_with_in. exists rw. repeat split; assumption.
+Qed.
+End Cert.
+
+(* exact-surface lookup: the ids of lookup(q, 0) whose end is the end of the query *)
+Lemma exact_lookup_spec lexs q ids :
+  exact_lookup lexs q = Some ids ->
+  forall w, In w ids <-> exists l, lookup_set lexs q 0 = Some l /\ In (w, N.of_nat (length q)) l.
+Proof.
+  unfold exact_lookup. destruct (lookup_set lexs q 0) as [l|]; [|discriminate]. intros Heq. injection Heq as <-.
+  intros w. rewrite in_map_iff. split.
+  - intros [[w' e] [<- Hin]]. apply filter_In in Hin. destruct Hin as [Hin He]. cbn [snd fst] in *.
+    apply N.eqb_eq in He. subst e. exists l. split; [reflexivity|exact Hin].
+  - intros [l' [Heq Hin]]. injection Heq as <-. exists (w, N.of_nat (length q)). split; [reflexivity|].
+    apply filter_In. split; [exact Hin|]. cbn [snd]. apply N.eqb_refl.
+Qed.
